@@ -1574,4 +1574,217 @@ theorem bracket_class_name_loses_field :
   decide
 
 
+
+/-! ### the parse inverts the formatter: exact value / problem recovery per shape -/
+
+/-- no occurrence of `pat` starts anywhere in `t` -/
+def noOcc (pat : Text) : Text → Bool
+  | [] => (dropPre pat []).isNone
+  | c :: cs => (dropPre pat (c :: cs)).isNone && noOcc pat cs
+
+theorem splitLast_none_of_noOcc (pat : Text) : ∀ (s : Text), noOcc pat s = true → splitLast pat s = none := by
+  intro s
+  induction s with
+  | nil => intro _; rfl
+  | cons c cs ih =>
+    intro h
+    simp only [noOcc, Bool.and_eq_true] at h
+    simp only [splitLast, ih h.2]
+    cases hd : dropPre pat (c :: cs) with
+    | none => rfl
+    | some r => simp [hd] at h
+
+theorem splitLast_prepend (pat : Text) (s a b : Text) (h : splitLast pat s = some (a, b)) :
+    ∀ p : Text, splitLast pat (p ++ s) = some (p ++ a, b) := by
+  intro p
+  induction p with
+  | nil => simpa using h
+  | cons c p ih => simp [splitLast, ih]
+
+theorem splitLast_cons_none (pat : Text) (c : Char) (cs : Text) (h : splitLast pat cs = none) :
+    splitLast pat (c :: cs) = (dropPre pat (c :: cs)).map fun r => ([], r) := by
+  rw [splitLast, h]
+
+theorem splitLast_semiGot_base (v : Text) (h : noOcc sSemiGot v = true) :
+    splitLast sSemiGot (sSemiGot ++ v) = some ([], v) := by
+  have h' : noOcc [';', ' ', 'G', 'o', 't', ' '] v = true := h
+  have h1 : noOcc sSemiGot (' ' :: 'G' :: 'o' :: 't' :: ' ' :: v) = true := by
+    simp [noOcc, dropPre, sSemiGot, h']
+  have h2 := splitLast_none_of_noOcc sSemiGot _ h1
+  have h3 : dropPre sSemiGot (sSemiGot ++ v) = some v := dropPre_append sSemiGot v
+  show splitLast sSemiGot (';' :: (' ' :: 'G' :: 'o' :: 't' :: ' ' :: v)) = some ([], v)
+  rw [splitLast_cons_none _ _ _ h2]
+  have h4 : dropPre sSemiGot (';' :: ' ' :: 'G' :: 'o' :: 't' :: ' ' :: v) = some v := h3
+  rw [h4]; rfl
+
+/-- regex 2 on `<problem>; Got <value>` splits exactly at the separator when the value contains no
+    `; Got ` (anything else — `;`, newlines, quotes — is allowed in both) -/
+theorem m23tail_gotLast_exact (v p : Text) (h : noOcc sSemiGot v = true) :
+    m23tail (p ++ (sSemiGot ++ v)) = (some v, p) := by
+  have := splitLast_prepend sSemiGot _ _ _ (splitLast_semiGot_base v h) p
+  simp only [m23tail, this, List.append_nil]
+
+/-- shape 2 (`<problem>; Got <v>`): value and (transformed) problem recovered exactly -/
+theorem render_parse_gotLast (W : Word) (hW : W.Sound) (f v p : Text) (hf : identOk W f = true)
+    (hG : p.head? ≠ some 'G') (hv : noOcc sSemiGot v = true) :
+    parseMsg W (f ++ ':' :: ' ' :: body .gotLast v p) = ⟨some f, some v, transform p⟩ := by
+  have hhead : (body .gotLast v p).head? ≠ some 'G' := by
+    cases p with
+    | nil => simp [body, sSemiGot]
+    | cons x xs => simpa [body] using hG
+  rw [parseMsg_header W hW _ _ hf, parseTail_line _ hhead]
+  simp only [body, m23tail_gotLast_exact v p hv]
+
+/-- shape 3 (`<problem>` alone): the whole rest is the problem, no value -/
+theorem render_parse_plain (W : Word) (hW : W.Sound) (f p : Text) (hf : identOk W f = true)
+    (hG : p.head? ≠ some 'G') (hp : noOcc sSemiGot p = true) :
+    parseMsg W (f ++ ':' :: ' ' :: body .plain [] p) = ⟨some f, none, transform p⟩ := by
+  rw [parseMsg_header W hW _ _ hf, parseTail_line _ (by simpa [body] using hG)]
+  simp only [body, m23tail, splitLast_none_of_noOcc sSemiGot p hp]
+
+/-- the (decidable) side condition under which the parse INVERTS the formatter, per shape; no
+    condition on newlines anywhere (the regexes are DOTALL) -/
+def cleanTexts : Shape → Text → Text → Bool
+  | .gotFirst, v, _ => noSemi v
+  | .gotLast, v, p => noOcc sSemiGot v && (p.head? != some 'G')
+  | .plain, _, p => noOcc sSemiGot p && (p.head? != some 'G')
+
+/-- what `ErrorInfo` should carry for a message: the full path, the value (none for the plain shape)
+    and the readable problem -/
+def msgInfo (m : Msg) : Parsed :=
+  ⟨some m.fullPath, (match m.shape with | .plain => none | _ => some m.value), transform m.problem⟩
+
+/-- THE PARSE INVERTS THE FORMATTER: for every class name / field path in `[\w.]+`, every shape and
+    all clean texts (newlines, quotes, non-ASCII, JSON … allowed), the regex cascade returns exactly
+    the path, the value and the readable problem that were rendered -/
+theorem render_parse_inverts (W : Word) (hW : W.Sound) (m : Msg) (hp : identOk W m.fullPath = true)
+    (hc : cleanTexts m.shape m.value m.problem = true) : parseMsg W m.render = msgInfo m := by
+  rw [render_eq]
+  obtain ⟨cls, path, shape, v, p⟩ := m
+  cases shape with
+  | gotFirst =>
+    simp only [cleanTexts] at hc
+    exact render_parse_gotFirst W hW _ v p hp hc
+  | gotLast =>
+    simp only [cleanTexts, Bool.and_eq_true, bne_iff_ne, ne_eq] at hc
+    exact render_parse_gotLast W hW _ v p hp hc.2 hc.1
+  | plain =>
+    simp only [cleanTexts, Bool.and_eq_true, bne_iff_ne, ne_eq] at hc
+    have := render_parse_plain W hW (Msg.fullPath ⟨cls, path, .plain, v, p⟩) p hp hc.2 hc.1
+    simpa [body, msgInfo] using this
+
+/-- the conditions are needed: a value containing `; Got ` moves the split of shape 2, a problem
+    starting with `Got ` is taken by regex 1 -/
+theorem unclean_texts_examples :
+    parseMsg asciiWord (Msg.render ⟨some "Foo".toList, "b".toList, .gotLast, "'x; Got y'".toList,
+      "Expected <class 'bool'>".toList⟩) =
+      ⟨some "Foo.b".toList, some "y'".toList, "Expected <class 'bool'>; Got 'x".toList⟩ ∧
+    parseMsg asciiWord (Msg.render ⟨some "Foo".toList, "b".toList, .gotLast, "1".toList,
+      "Got ; it".toList⟩) = ⟨some "Foo.b".toList, some [], "it; Got 1".toList⟩ := by
+  decide
+
+/-! ### `wrap_val`: a `str` value is rendered between single quotes -/
+
+/-- `wrap_val(v)` for a `str` -/
+def quoteStr (s : Text) : Text := '\'' :: (s ++ ['\''])
+
+theorem noSemi_quoteStr (s : Text) : noSemi (quoteStr s) = noSemi s := by
+  simp [noSemi, quoteStr, List.all_append]
+
+theorem dropPre_none_snoc (pat : Text) (q : Char) (hq : ∀ c ∈ pat, c ≠ q) :
+    ∀ t : Text, dropPre pat t = none → dropPre pat (t ++ [q]) = none := by
+  induction pat with
+  | nil => intro t h; cases t <;> simp [dropPre] at h
+  | cons a p ih =>
+    intro t h
+    cases t with
+    | nil =>
+      have : a ≠ q := hq a List.mem_cons_self
+      simp [dropPre, this]
+    | cons b t' =>
+      simp only [List.cons_append, dropPre] at h ⊢
+      split
+      · rename_i hab
+        simp only [hab, if_true] at h
+        exact ih (fun c hc => hq c (List.mem_cons_of_mem _ hc)) t' h
+      · rfl
+
+theorem noOcc_snoc (pat : Text) (hne : pat ≠ []) (q : Char) (hq : ∀ c ∈ pat, c ≠ q) :
+    ∀ t : Text, noOcc pat t = true → noOcc pat (t ++ [q]) = true := by
+  have hone : (dropPre pat [q]).isNone = true := by
+    cases pat with
+    | nil => exact absurd rfl hne
+    | cons a p =>
+      have : a ≠ q := hq a List.mem_cons_self
+      simp [dropPre, this]
+  have hnil : (dropPre pat []).isNone = true := by
+    cases pat with
+    | nil => exact absurd rfl hne
+    | cons a p => rfl
+  intro t
+  induction t with
+  | nil => intro _; simp [noOcc, hone, hnil]
+  | cons c cs ih =>
+    intro h
+    simp only [noOcc, Bool.and_eq_true, Option.isNone_iff_eq_none] at h
+    simp only [List.cons_append, noOcc, Bool.and_eq_true, Option.isNone_iff_eq_none]
+    exact ⟨dropPre_none_snoc pat q hq (c :: cs) h.1, ih h.2⟩
+
+/-- quoting adds no `; Got ` -/
+theorem noOcc_quoteStr (s : Text) (h : noOcc sSemiGot s = true) : noOcc sSemiGot (quoteStr s) = true := by
+  have hs := noOcc_snoc sSemiGot (by decide) '\'' (by decide) s h
+  simp only [quoteStr, noOcc, Bool.and_eq_true]
+  exact ⟨by simp [dropPre, sSemiGot], hs⟩
+
+/-- a rejected `str` value comes back exactly as `wrap_val` rendered it — for every path in
+    `[\w.]+`, every problem text, every string without `;` (value-first shape) resp. without
+    `; Got ` (value-last shape); newlines, quotes, `: `, non-ASCII are all allowed -/
+theorem str_value_roundtrip (W : Word) (hW : W.Sound) (f s p : Text) (hf : identOk W f = true) :
+    (noSemi s = true →
+      parseMsg W (f ++ ':' :: ' ' :: body .gotFirst (quoteStr s) p) = ⟨some f, some (quoteStr s), transform p⟩) ∧
+    (noOcc sSemiGot s = true → p.head? ≠ some 'G' →
+      parseMsg W (f ++ ':' :: ' ' :: body .gotLast (quoteStr s) p) = ⟨some f, some (quoteStr s), transform p⟩) :=
+  ⟨fun h => render_parse_gotFirst W hW f _ p hf (by rw [noSemi_quoteStr]; exact h),
+   fun h hG => render_parse_gotLast W hW f _ p hf hG (noOcc_quoteStr s h)⟩
+
+
+/-! ### typedpy's problem texts -/
+
+/-- every problem text the constructor of a flat / nested-collection field produces matches one
+    of these templates (all of them begin `Expected ` or `Does not match regular expression: `) -/
+theorem typedpy_problem_good (p : Text) (h : isTypedpyProblem p = true) (sh : Shape) (v : Text) :
+    goodTexts sh v p = true := by
+  have hhead : p.head? = some 'E' ∨ p.head? = some 'D' := by
+    simp only [isTypedpyProblem, Bool.or_eq_true] at h
+    cases h with
+    | inl h =>
+      cases hd : dropPre sExpected p with
+      | none => simp [startsWithT, hd] at h
+      | some r => rw [dropPre_eq _ _ _ hd]; left; rfl
+    | inr h =>
+      cases hd : dropPre sDoesNotMatch p with
+      | none => simp [startsWithT, hd] at h
+      | some r => rw [dropPre_eq _ _ _ hd]; right; rfl
+  cases p with
+  | nil => cases hhead <;> simp_all
+  | cons c cs =>
+    cases hhead with
+    | inl h1 => simp only [List.head?_cons, Option.some.injEq] at h1; subst h1; cases sh <;> simp [goodTexts]
+    | inr h1 => simp only [List.head?_cons, Option.some.injEq] at h1; subst h1; cases sh <;> simp [goodTexts]
+
+/-- texts taken from typedpy's templates are well-formed: `TextsWellFormed` is not an assumption
+    about the code but a consequence of the (corresponded) templates -/
+theorem templates_wellFormed (T : Texts) (h : ∀ s, isTypedpyProblem (T s).2 = true) : TextsWellFormed T :=
+  fun s => typedpy_problem_good _ (h s) _ _
+
+/-- the parameter-free templates, kernel-checked: each is a typedpy problem, starts neither with
+    `G` nor contains `; Got `, and `Expected <class 'int'>` & co. become readable -/
+theorem fixed_templates_examples :
+    (fixedProblems.all fun p => isTypedpyProblem p && noOcc sSemiGot p && (p.head? != some 'G')) = true ∧
+    transform "Expected <class 'float'>".toList = "Expected a decimal number".toList ∧
+    transform "Expected <class 'list'>".toList = "Expected an array".toList ∧
+    transform "Expected <class 'str'>".toList = "Expected a text value".toList := by
+  decide
+
+
 end Typedpy.C18
